@@ -217,6 +217,7 @@ async def run_scenario(aiocoap, sc):
             if r is not None and r == cancel_at:
                 if trace:
                     trace[-1][0] += ":c"
+                state["served"].append(("OC",))       # (where in the server's log the application cancelled)
                 req.observation.cancel()
 
         def app_errback(e):
@@ -315,6 +316,8 @@ async def run_scenario(aiocoap, sc):
                     return
                 state["served"].append(("OC",))
                 seen.append(("oc",))
+                # (the waiter of the response future runs before the task `_run` has just created for the loop)
+                state["start"] = "^c"
                 req.observation.cancel()
             only = loop.create_task(only_the_response())
         if sc["consumer"] == "iter":
@@ -331,6 +334,7 @@ async def run_scenario(aiocoap, sc):
             steps.pop(0)
             state["served"].append(("OC",))
             seen.append(("oc",))
+            state["start"] = "^c"
             req.observation.cancel()
             await turn(4)
         while steps and steps[0][0] == "O" and steps[0][1] <= 0:
@@ -349,6 +353,11 @@ async def run_scenario(aiocoap, sc):
             elif st[0] == "OC":
                 state["served"].append(("OC",))
                 seen.append(("oc",))
+                if not req.observation.cancelled:
+                    if not req.response.done():
+                        state["start"] = "^c"        # the response is not complete: the loop's task does not exist yet
+                    else:
+                        trace.append(["cancel", []])
                 req.observation.cancel()
                 await turn(4)
             elif st[0] == "O":
@@ -420,6 +429,7 @@ async def run_scenario(aiocoap, sc):
         else:
             trace_end = None
         trace_snapshot = [[t, list(d)] for t, d in trace]
+        lower_cancelled = lower["obs"].cancelled if "obs" in lower else None
     finally:
         P.BlockwiseRequest._complete_by_requesting_block2 = orig
         try:
@@ -431,7 +441,8 @@ async def run_scenario(aiocoap, sc):
         loop.set_exception_handler(old)
     return {"seen": snapshot, "resp": resp, "escaped": escaped, "loop_errors": loop_errors, "pending": pending,
             "served": state["served"], "outstanding": outstanding, "trace": trace_snapshot,
-            "lower_end": trace_end, "gave_up": gave_up, "matched": state["matched"], "others": other_states}
+            "lower_end": trace_end, "gave_up": gave_up, "matched": state["matched"], "others": other_states,
+            "start": state.get("start", ""), "lower_cancelled": lower_cancelled}
 
 
 # ---------------------------------------------------------------------------------------------
@@ -665,11 +676,6 @@ def oracle_token_released(sc, res):
             ended_at = -2       # given up before the first response: nothing is taken on the token any more
         else:
             cancelled_at = rc   # given up while the body of the response was fetched: noticed at the next notification
-    if sc.get("cancel_at") is not None:
-        for pos, e in enumerate(served):
-            if e[0] == "N" and e[1] == sc["cancel_at"] and ("item", 69, sc["cancel_at"]) in res["seen"]:
-                cancelled_at = pos if cancelled_at is None else min(cancelled_at, pos)
-                break
     taken_after_cancel = 0
     for pos, ok in res.get("matched", []):
         what = served[pos] if pos >= 0 else ("first response",)
@@ -689,7 +695,8 @@ def oracle_token_released(sc, res):
 def trace_lines(res):
     """-> (driver line, implementation's canonical string), or None when `_run_observation` never got anything"""
     tr = res["trace"]
-    if all(tag == "-" for tag, _ in tr):
+    start = res.get("start", "")
+    if all(tag == "-" for tag, _ in tr) and not start:
         # the loop was never given anything: what the application's observation was told (if anything) came from
         # the paths of the response itself (`_run` / `_run_outer` / the cancellation handler), judged by the oracle
         return None
@@ -702,7 +709,15 @@ def trace_lines(res):
             continue
         toks.append(tag)
         outs.append(",".join(_canon(d) for d in dels) or ".")
-    return "C07 U " + " ".join(toks), " ".join(outs)
+    # has the lower observation been given up at the end?  (asked unless the lower observation has ended while the
+    # loop, busy with a fetch, has not come to see it)
+    saw_end = any(tag in ("stop", "raise", "cancel") or tag.split(":")[1:2] == ["net"] or tag.endswith(":c")
+                  for tag, _ in tr) or bool(start)
+    if res.get("lower_cancelled") is not None and (saw_end or res.get("lower_end") is None) \
+            and res["resp"] is not None and res["resp"][0] == "resp":
+        toks.append("?L")
+        outs.append("L+" if res["lower_cancelled"] else "L-")
+    return "C07 U " + " ".join(([start] if start else []) + toks), " ".join(outs) or "-"
 
 
 def _canon(d):
@@ -804,12 +819,11 @@ def round4_scenarios():
                         [["serve"], ["N", 5, 2], ["OC"], ["serve"]], [["serve"], ["N", 5, 2], ["serve"], ["OC"]],
                         [["OC"], ["T", 3], ["RC"], ["serve"]]):
                 for tail in (notifs, notifs[:4] + [["F", 132, None], ["N", 3, 9]], notifs[:2] + [["X", 2], ["N", 3, 9]]):
-                    out.append({"consumer": cons, "work": work, "reps": rp, "hows": [], "oracle_only": True,
-                                "steps": pre + tail})
+                    out.append({"consumer": cons, "work": work, "reps": rp, "hows": [], "steps": pre + tail})
             for tail in (notifs, notifs[:4] + [["F", 132, None], ["N", 3, 9]]):
-                out.append({"consumer": cons, "work": work, "reps": rp, "hows": [], "oracle_only": True,
+                out.append({"consumer": cons, "work": work, "reps": rp, "hows": [],
                             "cancel_on_response": True, "steps": [["serve"]] + tail})
-                out.append({"consumer": cons, "work": work, "reps": rp, "hows": ["ok", "etag"], "oracle_only": True,
+                out.append({"consumer": cons, "work": work, "reps": rp, "hows": ["ok", "etag"],
                             "cancel_on_response": True, "steps": [["serve"]] + tail})
     # late notifications after every end: the token is given up at once
     for cons, work in (("callbacks", 0), ("iter", 3)):
@@ -902,8 +916,7 @@ def random_scenario(rng):
             steps.insert(rng.randrange(1, len(steps) + 1), ["X", rng.choice([1, 2]), 1])
         steps[:0] = sorted(pre, key=lambda o: o[1])
     elif r < 0.5 and "cancel_at" not in sc and not sc.get("eb_cancels"):
-        # the application cancels the observation itself somewhere (oracle only)
-        sc["oracle_only"] = True
+        # the application cancels the observation itself somewhere
         if rng.random() < 0.3:
             sc["cancel_on_response"] = True
         else:
